@@ -23,15 +23,15 @@ namespace Ldap3V.Conn
   to scrub its ID. -/
 theorem C12_law (s : St) (i : Nat) (o : Op) (d : Nat) (ho : s.ops[i]? = some o) (hres : o.res = none)
     (hph : o.phase ≠ .allocated) (hd : o.deadline = some d) :
-    (∀ f, o.mail = .frame f →
-      step s (.poll i) = some ({ s with ops := s.ops.set i { o with res := some (.frame f) } }, .res (some (.frame f)))) ∧
+    (∀ f, o.mail = .frame f → ∀ r, r = (if f.good then Res.frame f else Res.decodeErr) →   -- a non-result frame: decoding error (F27)
+      step s (.poll i) = some ({ s with ops := s.ops.set i { o with res := some r } }, .res (some r))) ∧
     (o.mail = .empty → s.now < d → step s (.poll i) = some (s, .res none)) ∧
     (o.mail = .empty → d ≤ s.now → s.drv = .running →
       step s (.poll i) = some ({ s with ops := s.ops.set i { o with res := some .timeout },
                                         scrubQ := s.scrubQ ++ [o.id],
                                         chans := dropRxOf s.chans o.chan }, .res (some .timeout))) := by
   refine ⟨?_, ?_, ?_⟩
-  · intro f hm; simp [step, ho, hres, hph, hm]
+  · intro f hm r hr; subst hr; simp [step, ho, hres, hph, hm]
   · intro hm hlt
     have : ¬ s.now ≥ d := by omega
     simp [step, ho, hres, hph, hm, hd, this]
